@@ -86,9 +86,11 @@ func (conn *Conn) recv() {
 		}
 
 		pos += n
-		for pos > 4 {
+		for pos >= 4 {
+			// the size is judged as soon as it is known: a frame that cannot
+			// be valid is not waited for
 			sz, _ := Gint32(buf)
-			if sz > conn.Msize {
+			if sz > conn.Msize || sz < 7 {
 				log.Println("bad client connection: ", conn.conn.RemoteAddr())
 				_ = conn.conn.Close()
 				conn.close()
